@@ -177,7 +177,6 @@ func runC20(c *Ctx, w *World, r *Report) {
 		methods := map[string]bool{}
 		var recCalls []*ssa.Call
 		var hdrLoads []*ssa.Global
-		var hdrPos string
 		nIns := 0
 		for _, b := range sizeof.Blocks {
 			if !slice[b] {
@@ -204,7 +203,6 @@ func runC20(c *Ctx, w *World, r *Report) {
 						if g, ok := x.X.(*ssa.Global); ok && g.Pkg == sizeof.Pkg {
 							if flowsTo(x, isReturnSink) {
 								hdrLoads = append(hdrLoads, g)
-								hdrPos = w.InstrPos(ins)
 							}
 						}
 					}
@@ -224,24 +222,80 @@ func runC20(c *Ctx, w *World, r *Report) {
 		} else {
 			r.OK("R-KINDS", key, w.Pos(sizeof.Pos()), facts...)
 		}
-		// R-HEADER
+		// R-HEADER: per return of the specialisation, the header loads that flow into that return. Loads in exclusive
+		// branches are alternatives; two loads of which one dominates the other lie on one path and are both added.
 		want, hasHdr := wantHeader[kn]
-		switch {
-		case !hasHdr && len(hdrLoads) > 0:
-			r.Bad("R-HEADER", key, hdrPos, fmt.Sprintf("kind %s has no header but package variable %s is added into the sum", kn, hdrLoads[0].Name()), facts...)
-		case !hasHdr:
-			r.OK("R-HEADER", key, w.Pos(sizeof.Pos()), "no header variable flows into the result for this kind")
-		case len(hdrLoads) != 1:
-			r.Bad("R-HEADER", key, w.Pos(sizeof.Pos()), fmt.Sprintf("kind %s must add exactly one header variable into the sum, found %d", kn, len(hdrLoads)), facts...)
-		default:
-			g := hdrLoads[0]
-			iv, ok := initVal[g]
-			if !ok {
-				r.Unknown("R-HEADER", key, hdrPos, "header variable "+g.Name()+" has no constant initialiser")
-			} else if iv != want {
-				r.Bad("R-HEADER", key, hdrPos, fmt.Sprintf("header added for kind %s is %s = %d, but a %s header is %d bytes in this configuration", kn, g.Name(), iv, strings.ToLower(kn), want), facts...)
+		{
+			type hl struct {
+				g  *ssa.Global
+				ld *ssa.UnOp
+			}
+			var loads []hl
+			for _, b := range sizeof.Blocks {
+				if !slice[b] {
+					continue
+				}
+				for _, ins := range b.Instrs {
+					if x, ok := ins.(*ssa.UnOp); ok && x.Op == token.MUL {
+						if g, ok := x.X.(*ssa.Global); ok && g.Pkg == sizeof.Pkg {
+							loads = append(loads, hl{g, x})
+						}
+					}
+				}
+			}
+			badH, okFact := "", ""
+			nret := 0
+			for _, b := range sizeof.Blocks {
+				if !slice[b] {
+					continue
+				}
+				ret, ok := b.Instrs[len(b.Instrs)-1].(*ssa.Return)
+				if !ok {
+					continue
+				}
+				nret++
+				var into []hl
+				for _, l := range loads {
+					if flowsTo(l.ld, func(ins ssa.Instruction) bool { return ins == ssa.Instruction(ret) }) {
+						into = append(into, l)
+					}
+				}
+				if !hasHdr {
+					if len(into) > 0 {
+						badH = fmt.Sprintf("kind %s has no header but package variable %s is added into the sum returned at %s", kn, into[0].g.Name(), w.InstrPos(ret))
+					}
+					continue
+				}
+				if len(into) == 0 {
+					badH = fmt.Sprintf("kind %s must add its header into the sum, the return at %s adds none", kn, w.InstrPos(ret))
+					continue
+				}
+				for i, a := range into {
+					for j, c := range into {
+						if i < j && (a.ld.Block() == c.ld.Block() || a.ld.Block().Dominates(c.ld.Block()) || c.ld.Block().Dominates(a.ld.Block())) {
+							badH = fmt.Sprintf("kind %s must add exactly one header variable into the sum, the return at %s receives %s and %s on one path", kn, w.InstrPos(ret), a.g.Name(), c.g.Name())
+						}
+					}
+					iv, ok := initVal[a.g]
+					if !ok {
+						badH = "header variable " + a.g.Name() + " has no constant initialiser"
+					} else if iv != want {
+						badH = fmt.Sprintf("header added for kind %s is %s = %d, but a %s header is %d bytes in this configuration", kn, a.g.Name(), iv, strings.ToLower(kn), want)
+					} else {
+						okFact = fmt.Sprintf("header variable %s = %d = Sizeof(%s header)", a.g.Name(), iv, strings.ToLower(kn))
+					}
+				}
+			}
+			if nret == 0 && badH == "" && len(panics) == 0 {
+				badH = "the specialisation has no return"
+			}
+			if !hasHdr && okFact == "" {
+				okFact = "no header variable flows into the result for this kind"
+			}
+			if badH != "" {
+				r.Bad("R-HEADER", key, w.Pos(sizeof.Pos()), badH, facts...)
 			} else {
-				r.OK("R-HEADER", key, hdrPos, fmt.Sprintf("header variable %s = %d = Sizeof(%s header)", g.Name(), iv, strings.ToLower(kn)))
+				r.OK("R-HEADER", key, w.Pos(sizeof.Pos()), okFact)
 			}
 		}
 		// R-RECURSE
